@@ -57,7 +57,7 @@ def run(chk, repo, tier):
     chk.rule("C02.R3", "hashed message term: bare message (basic, PoP), PK‖message (augmentation, verifying key), PK (PopVerify)", 8)
     chk.rule("C02.R4", "compared exponent is e(sig, G1)·e(H(m), PK)^-1 (accept ⇔ σ = sk·h in the formal bilinear domain)", 8)
     chk.rule("C02.R5", "the byte strings reach the point decoders unmodified: signature_to_G2(s) = decompress_G2((OS2IP(s[:48]), OS2IP(s[48:]))), "
-                       "pubkey_to_G1(k) = decompress_G1(OS2IP(k)) — no bit of the candidate is masked before the canonical-form checks; signature decoder table as C11.R1", 4 + 72)
+                       "pubkey_to_G1(k) = decompress_G1(OS2IP(k)) — no bit of the candidate is masked before the canonical-form checks; signature decoder table as C11.R1", 4 + 72 + 8)
     chk.not_decided += ["the unconditional 'iff' (uniqueness needs bilinearity + non-degeneracy, C05, and canonical decoding, C11)"]
     chk.depends_on += ["C05", "C11", "C04"]
     M = Model(repo, "P")
@@ -94,6 +94,11 @@ def run(chk, repo, tier):
             args = [mk(M, p) for p in params]
             paths, m = M.paths(suite, entry, args)
             construct = f"{CS}.{suite}.{entry}"
+            from .C04 import _transformed_input
+            tb = sorted({f"{ev['fn']}({show(ev['arg'])[:80]}) at {ev['where']}" for p in paths for ev in p.events
+                         if ev["kind"] == "decode" and _transformed_input(ev["arg"])})
+            chk.ob("C02.R5", construct, "the decoders receive the caller's byte strings themselves, not a slice / re-assembly of them", not tb,
+                   "; ".join(tb[:2]), m.where)
             # ---- R1
             bad = {}
             acc = []
